@@ -144,6 +144,7 @@ func main() {
 	}
 	i.runtimeErrorString = rt.Type("errorString").Object().Type()
 	gRuntimeErrorString = i.runtimeErrorString
+	i.harnessPkgPath = main.Pkg.Path()
 	i.registerModels(main.Pkg.Path())
 	i.registerTimeModels()
 	i.registerExtraModels()
@@ -168,7 +169,9 @@ func main() {
 		for _, q := range imps {
 			visit(q)
 		}
-		if strings.HasPrefix(p.Path(), "github.com/samber/ro") || wantInit[p.Path()] {
+		roPkg := strings.HasPrefix(p.Path(), "github.com/samber/ro") &&
+			!strings.Contains(p.Path(), "/ee/pkg/") && !strings.Contains(p.Path(), "/ee/internal/")
+		if roPkg || wantInit[p.Path()] {
 			if sp := prog.Package(p); sp != nil {
 				if f := sp.Func("init"); f != nil {
 					i.initFns = append(i.initFns, f)
